@@ -122,6 +122,7 @@ package proto
 //@ -- was found equal to the target's (possibly just inferred) name and its type was found compatible
 //@ callsite ColResult.Reset
 //@   assert t.Name == columnName [C18] {reset-only-after-the-name-check}
+//@   assert s[i].Name == columnName [C18] {inferred-name-is-stored-in-the-target-list}
 //@   assert !typeConflicts(arrayof(gotType), len(gotType), arrayof(hasType), len(hasType)) [C18] {reset-only-after-the-type-check}
 //@ callsite ColResult.DecodeColumn
 //@   assert t.Name == columnName [C18] {data-only-into-the-target-of-that-name}
